@@ -23,6 +23,8 @@ def run(chk, tier):
         cr.check_who_may_write(chk, prog, cfg, rule="R5.2c")
         # the exported registry has exactly the entries of the Registry (no merging / dropping at conversion time)
         cr.check_from_registry(chk, prog, cfg, rule="R5.6")
+        # the runtime builder is the other source of ids: a re-registered type gets its existing id
+        cr.check_builder_ops(chk, prog, cfg, rule="R12.2")
         n = ci.check_identities(chk, prog, cfg)
         chk.count("alias_impls[%s]" % cfg, n)
     n = len({i["construct"] for i in chk.instances if i["rule"] == "R5.3" and i["construct"].startswith("alias:")})
